@@ -22,6 +22,17 @@ def logdet_form(t, M=None):
         if M is None or (t.base.args and t.base.args[0] == M):
             return ("ok", "slogdet(M)[1]")
         return ("bad", f"slogdet of {t.base.args[0] if t.base.args else '?'} instead of {M}")
+    # batched: slogdet(asarray([M_j for j ...]))[1][k]  is  slogdet(M_k)[1]
+    if isinstance(t, Idx) and len(t.idx) == 1 and isinstance(t.base, Idx) and t.base.idx == (tm.ONE,) and isinstance(t.base.base, App) \
+            and t.base.base.fn == "numpy.linalg.slogdet" and t.base.base.args:
+        stack = t.base.base.args[0]
+        if isinstance(stack, App) and stack.fn in ("numpy.asarray", "numpy.array", "numpy.stack") and stack.args:
+            stack = stack.args[0]
+        if isinstance(stack, tm.Comp) and not stack.conds:
+            Mk = tm.index(stack, (t.idx[0],))
+            if M is None or Mk == M:
+                return ("ok", "slogdet(stack of M_j)[1][k]")
+            return ("bad", f"batched slogdet of {Mk} instead of {M}")
     # 2 * sum(log(diag(cholesky(M))))
     if isinstance(t, Poly) and len(t.terms) == 1 and t.terms[0][1] == 2 and len(t.terms[0][0]) == 1:
         a = t.terms[0][0][0][0]
